@@ -848,6 +848,11 @@ def gen_coap_dup(tier, r):
         keys = sorted(set(ids))
         cases.append(dict(ids=ids, vec=[r.choice(DUP_KINDS) for _ in range(n)], unknown=r.sample(keys, r.randrange(1, len(keys) + 1)),
                           stream="unknown-write-random"))
+    # the public signature is Iterable[(aid, iid)]: list, tuple, dict view and a one-shot generator
+    for n in (1, 2, 3):
+        for kind in ("list", "tuple", "dictkeys", "generator"):
+            for vec in (["okN"] * n, ["err", "okN", "ok0"][:n]):
+                cases.append(dict(ids=[(1, 51), (1, 52), (2, 52)][:n], vec=vec, read_arg=kind, stream="iterable-kinds"))
     # which instance ids the controller's accessory database knows on the READ path (find_characteristic_by_iid): all / none /
     # some - a read of an unknown iid returns the raw bytes and must not touch any cached characteristic
     for k, c in enumerate(cases):
@@ -934,7 +939,10 @@ async def impl_coap_dup(case):
         n0 = len(log)
         try:
             if name == "read":
-                d = await conn.read_characteristics(list(ids))
+                kind = case.get("read_arg", "list")
+                arg = (tuple(ids) if kind == "tuple" else dict.fromkeys(ids).keys() if kind == "dictkeys"
+                       else (k for k in list(ids)) if kind == "generator" else list(ids))
+                d = await conn.read_characteristics(arg)
             elif name == "sub":
                 d = await conn.subscribe_to(list(ids))
             elif name == "unsub":
@@ -1120,6 +1128,11 @@ def oracle_coap_dup(case, out):
             if o["cache"] != want_cache:
                 bad.append(("coap-ids:read-cache", f"read of ids {ids} (database knows iids {sorted(known)}) with outcomes {vec}: cached "
                             f"characteristic values written {o['cache'][:8]} (want {want_cache[:8]}: position i's value into iid_i only)"))
+    if case.get("read_arg") == "generator" and any(sl.startswith("coap-ids:read") for sl, _ in bad):
+        # a one-shot iterable is legal for the annotated signature Iterable[tuple[int, int]]; own key for this input class
+        txt = "; ".join(t for sl, t in bad if sl.startswith("coap-ids:read"))
+        bad = [(sl, t) for sl, t in bad if not sl.startswith("coap-ids:read")]
+        bad.append(("coap-read:one-shot-iterable", "read_characteristics(<generator over the ids>): " + txt))
     return bad
 
 
@@ -1719,7 +1732,7 @@ def _run(ctx, tier, seed):
             wire = ("ok " + o[nm]["wire"][0]) if len(o[nm]["wire"]) == 1 else f"{len(o[nm]['wire'])} requests"
             if not o[nm]["wire"] and o[nm]["result"] == "crash":
                 wire = "crash"
-            if wire != m_enc[j] and not any(sl == f"coap-ids:{nm}-wire" for sl, _ in orc):
+            if wire != m_enc[j] and not any(sl in (f"coap-ids:{nm}-wire", "coap-read:one-shot-iterable") for sl, _ in orc):
                 add_v(f"coap-ids:{nm}-wire:model-mismatch", f"{nm} of ids {c['ids']}: sent {wire[:100]} != model {m_enc[j][:100]}", False,
                       case=desc, impl=wire[:1000], model=m_enc[j][:1000],
                       broken="correspondence Model/Pdu.v coap_encode_all <-> coap/connection.py request construction")
@@ -1730,7 +1743,7 @@ def _run(ctx, tier, seed):
                     add_v("coap-ids:read-cache:model-mismatch", f"read of ids {c['ids']}: cache writes {o[nm]['cache'][:6]} != model {mcache[:6]}", False,
                           case=desc, impl=o[nm]["cache"], model=mcache,
                           broken="correspondence Model/Pdu.v coap_read_exit <-> coap/connection.py _read_characteristics_exit")
-            if o[nm]["result"] != mm and not any(sl.startswith(f"coap-ids:{nm}") for sl, _ in orc):
+            if o[nm]["result"] != mm and not any(sl.startswith(f"coap-ids:{nm}") or sl == "coap-read:one-shot-iterable" for sl, _ in orc):
                 add_v(f"coap-ids:{nm}:model-mismatch", f"{nm} of ids {c['ids']}: {o[nm]['result'][:100]} != model {mm[:100]}", False,
                       case=desc, impl=o[nm]["result"][:1000], model=mm[:1000],
                       broken="correspondence Model/Pdu.v coap_decode_all + zip_results <-> coap/connection.py")
